@@ -4,6 +4,6 @@ namespace CkbVerif.C18
 open CkbVerif.Indexer
 
 theorem get_put_same (s : Store) (k : Key) (v : Val) : get (put s k v) k = some v := by
-  simp [put, get]
+  simp [put, Indexer.get]
 
 end CkbVerif.C18
